@@ -174,16 +174,17 @@ def run(tier):
             seen.add(cls)
             chk.violation(signature(c, cls), 'fault %s at %s#%d (n_ids=%d, pre-existing pair=%s, kp_reuse=%s): %s' % (
                 c['label'], c['kind'], c['nth'], c['n_ids'], c['pre'], c['kp_reuse'], what), res, res.get('replay_dir'))
-    for res in results:
-        if res.get('replay_dir'):
-            C.rmtree(res['replay_dir'])
     chk.exhaustive = (tier == 'thorough')
     chk.rule = ('single faults: (request position of a 1- and 3-identifier issuance) x (fault action: 26 ACME error types, '
                 'non-JSON/empty 4xx/5xx, connection cuts, header and field damage, invalid statuses, non-PEM bodies, forgotten account) '
                 'x (pre-existing pair) x (kp_reuse)%s; plus random multi-fault sequences; distinct = tuples whose fault the CA logged as fired'
                 % ('' if tier == 'thorough' else ' (quick: stratified sample)'))
     chk.assumptions = ['pair consistency judged by OpenSSL parsing in hookrec / vtool', 'attempt = directory fetch .. post-operation hook']
-    return chk.finish()
+    rc = chk.finish()
+    for res in results:
+        if res.get('replay_dir'):
+            C.rmtree(res['replay_dir'])
+    return rc
 
 
 def replay(path):
